@@ -241,7 +241,8 @@ func c05Grid(r *rand.Rand, extra int) []CmpVal {
 	dn("dd1", val.Dec("1.000"), "1")
 	dn("df125", val.F64(12.5), "12.5")
 	// strings
-	for _, s := range []string{"", "a", "ab", "abc", "b", "B", "é", "中", "az", "aé", "0", "1", "10", "9", "1.0", " ", "a ", "true", "null"} {
+	for _, s := range []string{"", "a", "ab", "abc", "b", "B", "é", "中", "az", "aé", "0", "1", "10", "9", "1.0", " ", "a ", "true", "null",
+		"\U0001F600", "\uff0c", "\ue000", "\U00020000", "\ufffd", "a\U0001F600", "a\uff0c", "\xff", "\xc3", "a\xff", "\U0010FFFF", "\uffff", "\ud7ff"} {
 		g = append(g, CmpVal{Src: strLit(s), Kind: "str", Str: s})
 	}
 	g = append(g, CmpVal{Src: "ds", Kind: "str", Str: "ab", Data: &val.KV{K: "ds", V: val.Str("ab")}})
@@ -260,7 +261,7 @@ func c05Grid(r *rand.Rand, extra int) []CmpVal {
 	return g
 }
 
-var strPoolC05 = []string{"", "a", "b", "ab", "z", "é", "中", "0", "9", "A", " ", "\x7f", "ß"}
+var strPoolC05 = []string{"", "a", "b", "ab", "z", "é", "中", "0", "9", "A", " ", "\x7f", "ß", "\U0001F600", "\uff0c", "\ue000", "\xff", "\U00020000"}
 
 func init() { c05.Run = runC05 }
 
